@@ -208,6 +208,9 @@ func (p *pool) coqHEnv(h HEnv, rnd int) string {
 
 const b64chars = "ABCDEFGHIJKLMNOPQRSTUVWXYZabcdefghijklmnopqrstuvwxyz0123456789-_"
 
+// lowBitFirst swaps which positions get the single-low-bit replacement (second pass of the thorough tier)
+var lowBitFirst bool
+
 func flipChar(s string, pos int) (string, bool) {
 	if len(s) == 0 {
 		return s, false
@@ -238,7 +241,7 @@ func flipChar(s string, pos int) (string, bool) {
 	// at the last position choose a neighbour that differs in the low bits only (exercises the lenient decoder),
 	// elsewhere any other symbol
 	n := b64chars[(c+1)%64]
-	if pos == 2 || (pos >= 10 && pos%2 == 1) {
+	if pos == 2 || (pos >= 10 && pos%2 == 1) != lowBitFirst {
 		n = b64chars[c^1] // single low bit
 	}
 
@@ -322,7 +325,10 @@ func (p *pool) run(kind string, c Case, tr *hx.Trace) {
 		return
 	}
 
+	lowBitFirst = c.Mut.Kind == "flip" && c.Mut.Arg == "alt"
 	mutated, coqE, own, err := p.mutate(c, e1, e2)
+	lowBitFirst = false
+
 	if err != nil {
 		if c.Mut.Kind == "flip" && c.Mut.Pos >= 10 {
 			return // a padding position
@@ -1406,10 +1412,20 @@ func (p *pool) gen(tr *hx.Trace, rng *hx.Rng, thorough bool) {
 				emit("flip", pr, Mut{Kind: "flip", Field: f, Pos: 10 + rng.Intn(4000)}, victim, via)
 			}
 
-			if (thorough && pi%3 == 0) || pi%13 == 5 {
-				lim := map[string]int{"protected": 700, "iv": 32, "ciphertext": 120, "tag": 44}[f]
+			if thorough || pi%13 == 5 {
+				lim := map[string]int{"protected": 900, "iv": 32, "ciphertext": 120, "tag": 44}[f]
 				for q := 0; q < lim; q++ {
 					emit("flip-all", pr, Mut{Kind: "flip", Field: f, Pos: 10 + q}, victim, via)
+				}
+
+				if thorough {
+					// the other replacement symbol at every position
+					lowBitFirst = true
+					for q := 0; q < lim; q++ {
+						emit("flip-all", pr, Mut{Kind: "flip", Field: f, Pos: 10 + q, Arg: "alt"}, victim, via)
+					}
+
+					lowBitFirst = false
 				}
 			}
 		}
